@@ -82,6 +82,7 @@ class GridSpec:
 
         return (
             self._shape == other._shape
+            and self.resolution == other.resolution
             and self._ybin == other._ybin
             and self._xbin == other._xbin
             and self.crs == other.crs
